@@ -59,3 +59,12 @@ package sm2
 //@ ensures iff: result0 == (len(pubx) == 32 && len(puby) == 32 && len(e) == 32 && len(r) == 32 && len(s) == 32 && std_verify(be(pubx), be(puby), be(e), be(r), be(s)))
 //@ ensures err: result0 ==> !nonnil(result1)
 //@ assigns nothing
+
+// ensure32Bytes: left-pads the minimal encoding to 32 bytes.  The value clause rests on
+// the fact that leading zero bytes do not change a big-endian value (trusted lemma L7).
+//@ func sm2.ensure32Bytes
+//@ mode int
+//@ requires range: 0 <= *i && *i < pow2(256)
+//@ ensures len: len(result) == 32 && cap(result) == 32
+//@ trusted_ensures val: be(result) == *i
+//@ assigns nothing
